@@ -531,7 +531,7 @@ def run(ck: Check):
         for pr in pairs:
             nm = pr[0][0]
             seen_n[nm] = seen_n.get(nm, 0) + 1
-            if seen_n[nm] <= 10 or nm.startswith("prim:"):
+            if seen_n[nm] <= 8 or nm.startswith("prim:"):
                 keep.append(pr)
         pairs = keep
     # balance the shards by size of the encoding
